@@ -60,6 +60,11 @@ class C05(Prop):
                     ys = [v if v > 0 or not strict else Fraction(1, 2) for v in ys]
             ws = None if rng.random() < 0.35 else [Fraction(rng.randint(1, 5), rng.choice([1, 1, 2])) for _ in range(n)]
             c = {"stream": "sample", "kind": kind, "h": h, "level": lv, "y": [str(v) for v in ys], "w": None if ws is None else [str(v) for v in ws]}
+            if rng.random() < 0.25:
+                # plain Python lists, the prediction list refilled in place between the calls (a reused buffer)
+                c["reuse"] = True
+                yield c
+                continue
             if fam != "logloss" and rng.random() < 0.2:
                 # integer-typed observations (large enough for int32 / int64 powers to overflow) scored against float constants
                 c["ydtype"] = rng.choice(["int32", "int64"])
@@ -113,6 +118,18 @@ class C05(Prop):
             sf = ElementaryScore(eta=float(Fraction(case["eta"])), functional=case["elem_f"], level=case["level"])
             for g in grid:
                 out["m"].append(float(sf(np.array(ys), np.full(len(ys), g), None if ws is None else np.array(ws))))
+            return out
+        if case.get("reuse"):
+            from .core import exc_class
+
+            ybuf, zbuf, wbuf = list(ys), [0.0] * len(ys), None if ws is None else list(ws)
+            try:
+                sf = sc.make_sf(case["kind"], case["h"], case["level"])
+                for g in grid:
+                    zbuf[:] = [g] * len(ys)
+                    out["m"].append(float(sf(ybuf, zbuf, wbuf)))
+            except Exception as e:
+                return {"err": exc_class(e), "at": g}
             return out
         for g in grid:
             if case.get("ydtype"):
